@@ -93,6 +93,9 @@ m('revert-F14-leak-required-on-failed-cache-probe', 'C11', 'C _lookupAll returns
 m('revert-F11c-swallowed-hash-error-in-lookup', 'C10', 'C _lookup cache probe swallows the error from hashing the key (defect F11c)',
   [(C, "    result = PyDict_GetItemWithError(cache, key);\n    if (result == NULL && PyErr_Occurred()) {\n        /* e.g. an unhashable element of `required` */\n        Py_DECREF(required);\n        return NULL;\n    }\n", "    result = PyDict_GetItem(cache, key);\n")])
 
+m('revert-F15-verify-before-first-changed', 'C11', 'Python VerifyingBase has no snapshot defaults: a lookup during rebuild() raises AttributeError (defect F15)',
+  [(A, "    _verify_ro = ()\n    _verify_generations = None\n\n    def changed(self, originally_changed):\n        LookupBaseFallback.changed(self, originally_changed)  # noqa F821", "    def changed(self, originally_changed):\n        LookupBaseFallback.changed(self, originally_changed)  # noqa F821")])
+
 def sh(*a, **k):
     return subprocess.run(a, capture_output=True, text=True, **k)
 
